@@ -1,8 +1,8 @@
 package main
 
 // C19 family 4  [4; n; hk; vk; k]: panic VALUES that are hostile to whoever prints them, under the handlers the library
-// itself provides.  k tasks panic with value kind vk on NewLimiter(n) whose handler is hk (0 = none configured: Recover's
-// built-in printer, 1 = goz.LogPanic(logger, 6), 2 = a plain func), then Wait, then as many blocking tasks as the limit
+// itself provides.  k tasks panic with value kind vk on NewLimiter(n) whose handler is hk mod 4 (0 = none configured: Recover's
+// built-in printer, 1 = goz.LogPanic(logger, deep) with deep = hk / 4 (0 means 6), 2 = a plain func), then Wait, then as many blocking tasks as the limit
 // allows must be inside their bodies at once, then Wait.  An escaping panic of a worker goroutine cannot be recovered from
 // outside, so the scenario runs in a child process (this binary, C19_CHILD set); a dead child is the observation [0;0;0;0].
 // output = [process survived; reports received by logger/handler; tasks inside at once afterwards; final Wait returned].
@@ -69,9 +69,13 @@ func c19ChildMain(spec string) {
 	fmt.Sscanf(spec, "%d,%d,%d,%d", &n, &hk, &vk, &k)
 	l := goz.NewLimiter(int(n))
 	var reports atomic.Int64
-	switch hk {
+	deep := int(hk / 4) // traceback depth handed to goz.LogPanic (0: the depth of the built-in printer)
+	if deep == 0 {
+		deep = 6
+	}
+	switch hk % 4 {
 	case 1:
-		l.SetPanicHandler(goz.LogPanic(c19CountLogger{&reports}, 6))
+		l.SetPanicHandler(goz.LogPanic(c19CountLogger{&reports}, deep))
 	case 2:
 		l.SetPanicHandler(func(any) { reports.Add(1) })
 	}
